@@ -45,7 +45,7 @@ func decodeBytes(buf []byte, body *[]byte) ([]byte, error) {
 	if n == 0 {
 		return buf, nil
 	}
-	if len(buf) < n {
+	if n < 0 || len(buf) < n {
 		return nil, errors.New("bad body length")
 	}
 	*body = buf[:n]
@@ -58,6 +58,10 @@ func decodeEfaceSlice(buf []byte, l *[]interface{}, elemT reflect.Type, unmarsha
 	buf, err = decodeLength(buf, &total)
 	if err != nil {
 		return nil, err
+	}
+	if total < 0 || total > len(buf) {
+		// every element takes at least one byte
+		return nil, errors.New("bad element count")
 	}
 	out := make([]interface{}, total)
 	for i := 0; i < total; i++ {
@@ -85,6 +89,10 @@ func decodeStringSlice(buf []byte, l *[]interface{}) ([]byte, error) {
 	buf, err = decodeLength(buf, &total)
 	if err != nil {
 		return nil, err
+	}
+	if total < 0 || total > len(buf) {
+		// every element takes at least one byte
+		return nil, errors.New("bad element count")
 	}
 	out := make([]interface{}, total)
 	for i := 0; i < total; i++ {
